@@ -832,7 +832,7 @@ func (w *world) caseStale(in concIn) gen.Case {
 	ths := []string{thrTerm(in.Holder, results[0]), thrTerm(in.Callers[0], results[1])}
 	// explicit schedule: both lookups, the whole teardown (second lookup of doTeardownAndCleanup,
 	// begin, commit, end), then the stale caller to its end
-	micro := []uint64{0, 1, 0, 0, 0, 0, 1, 1, 1, 1, 1, 1, 1, 1, 1, 1}
+	micro := []uint64{0, 1, 0, 0, 0, 0, 1, 1, 1, 1, 1, 1, 1, 1, 1, 1, 1, 1}
 	return gen.Case{Term: fmt.Sprintf("CConc %s %s %s [] %s %s %s %s", stTerm(st0), oracleTerm(in.Faults), gen.List(ths),
 		gen.NList(micro), gen.List(lt), stTerm(final), gen.Bool(listed)), Kind: "conc-stale", Input: in,
 		Obs: map[string]interface{}{"results": results, "log": plain, "final": final, "listed": listed}}
@@ -856,11 +856,13 @@ func (g *logGate) Fire(e *logrus.Entry) error {
 	return nil
 }
 
-// Forced state outside the transition mutex: caller A's request is illegal and its GO_ERROR
-// fallback is cancelled by a failing before_GO_ERROR hook; A is stopped (log hook) just before
-// its unlocked Sm.SetState("ERROR"); caller B's legal transition starts and is stopped inside
-// its task command; A is released (its SetState waits for B's event to let go of the FSM's own
-// lock), then B.
+// Forced state racing a transition (the schedules of the repaired findings C01-b / C01-c): caller
+// A's request is illegal and its GO_ERROR fallback is cancelled by a failing before_GO_ERROR hook;
+// A is stopped (log hook) just before it forces ERROR; caller B's legal transition starts and is
+// stopped inside its task command (or, "force-deadlock", inside its before_<event> hook); A is
+// released, then B.  With Environment.ForceError A waits for the transition mutex and forces ERROR
+// after B's transition; with the old unlocked Sm.SetState the forced ERROR landed inside B's
+// transition and was overwritten (monitor code 9) or both blocked for ever (code 10).
 func (w *world) caseForceRace(in concIn) gen.Case {
 	env := w.prepare(in.Pre)
 	w.setCur(env)
@@ -1003,8 +1005,9 @@ func (w *world) plainConc(env *environment.Environment, in concIn, st0 string, f
 
 func (in concIn) microHint() []uint64 {
 	// A: lookup, illegal op (3 steps), GO_ERROR cancelled (3 steps); B: lookup, begin;
-	// A: force, read; B: commit, end, read
-	return []uint64{0, 0, 0, 0, 0, 0, 0, 1, 1, 0, 0, 1, 1, 1}
+	// A: ForceError waits for the transition mutex (two idle steps); B: commit, end, read;
+	// A: forced state (begin, commit, end), read
+	return []uint64{0, 0, 0, 0, 0, 0, 0, 1, 1, 0, 0, 1, 1, 1, 0, 0, 0, 0}
 }
 
 var gatesFor = map[string][]string{}
